@@ -163,7 +163,13 @@ func (rn *runner) srcSweep(r *common.RNG, n int) {
 			continue
 		}
 		os.Remove(filepath.Join(dir, "trim.txt"))
-		c.Trim()
+		if pn := safely(func() { c.Trim() }); pn != "" {
+			rn.res.Violate(common.Violation{Kind: "impl-violation", Oracle: "no-panic", Key: "panic:trim:" + hx(hn),
+				Input:  map[string]string{"now": fmt.Sprint(now), "name": fmt.Sprintf("%q", hn), "mtime": fmt.Sprint(mt), "text": fmt.Sprintf("one file %q (mtime %d) in subdirectory of an otherwise empty cache, no trim.txt, Trim at %d", hn, mt, now)},
+				Detail: "Trim panicked: " + pn})
+			os.Remove(q)
+			continue
+		}
 		_, present := mtimeOf(q)
 		req = fmt.Sprintf("srcremove %d %s %d", now, hx(hn), mt)
 		ans = sm.Ask1(req)
